@@ -259,7 +259,7 @@ Proof.
     destruct (align_skip p r rb q (chunk4 p ref row ++ rows4_bits p row rows ++ close4 p ++ repeat false j) G Hs)
       as (r0 & rb0 & -> & G0 & R0).
     { intros Hal. destruct (Ha Hal) as [Hq Hm]. split; [assumption|].
-      rewrite !app_length, repeat_length. rewrite !app_length in Hm. rewrite <- Hm. f_equal. lia. }
+      rewrite !app_length, repeat_length. rewrite !app_length in Hm. rewrite !Nat.add_assoc. exact Hm. }
     { assumption. }
     rewrite Hck, <- !app_assoc in R0.
     destruct (g4_row_dec p ref row r0 rb0 _ Hc Hrow G0 R0) as (r1 & rb1 & G1 & R1 & D1).
@@ -274,9 +274,8 @@ Proof.
       - intros Hal. split.
         + rewrite Hq', Hal. apply Nat.mod_upper_bound. lia.
         + destruct (Ha Hal) as [_ Hm]. specialize (Hc8 Hal). unfold img4_bits. rewrite !app_length in *.
-          clear - Hm Hc8. 
-          rewrite <- Nat.add_assoc in Hm. rewrite <- Nat.add_mod_idemp_l, Hc8, Nat.add_0_l in Hm by lia.
-          rewrite <- Hm. f_equal. lia.
+          clear - Hm Hc8. rewrite <- !Nat.add_assoc in Hm.
+          rewrite <- Nat.add_mod_idemp_l, Hc8, Nat.add_0_l in Hm by lia. rewrite <- Nat.add_assoc. exact Hm.
       - intros Hal. rewrite Hq', Hal. reflexivity.
       - assumption.
       - cbn [length] in Hmax. destruct Hmax as [Hm0|Hm0]; [left; assumption|right; lia].
@@ -285,7 +284,7 @@ Proof.
       - cbn [length] in Hf. lia. }
     unfold g4_line. fold (Z.of_N (g_cols p)). rewrite D1.
     destruct (g_ignore_eob p) eqn:Ei; cbn [negb].
-    + destruct (flat_map bits8 row) as [|x l] eqn:El; [congruence|]. rewrite <- El, Hpack, Hnr.
+    + destruct (flat_map bits8 row) as [|x l] eqn:El; [congruence|]. rewrite Hpack, Hnr.
       rewrite (Hcont r1 rb1 G1 eq_refl). reflexivity.
     + destruct (peek_good 24 r1 rb1 G1 ltac:(lia)) as (rb2 & Pv & G2 & R2).
       destruct (peek 24 r1) as [v r2]. cbn [fst snd] in *.
@@ -295,13 +294,92 @@ Proof.
         apply num_of_inj in Ev as [_ Ev].
         2:{ rewrite firstn_length_le; [reflexivity|]. rewrite app_length, repeat_length. lia. }
         destruct rows as [|row' rows].
-        -- destruct (flat_map bits8 row) as [|x l] eqn:El; [congruence|]. rewrite <- El, Hpack, Hnr.
+        -- destruct (flat_map bits8 row) as [|x l] eqn:El; [congruence|]. rewrite Hpack, Hnr.
            destruct fuel as [|fuel]; [cbn [length] in Hf; lia|]. rewrite g4_rows_err with (e := EOF) by reflexivity.
            cbn [concat]. reflexivity.
         -- exfalso. rewrite R1 in Ev. cbn [rows4_bits] in Ev.
            destruct (chunk4_split p row row') as (q2 & Hck2 & _). rewrite Hck2, <- !app_assoc in Ev.
            apply (no_mimic p row row' q' _ Hc) in Ev; [assumption|].
            rewrite Hq'. destruct (g_align p); [apply Nat.mod_upper_bound|]; lia.
-      * destruct (flat_map bits8 row) as [|x l] eqn:El; [congruence|]. rewrite <- El, Hpack, Hnr.
+      * destruct (flat_map bits8 row) as [|x l] eqn:El; [congruence|]. rewrite Hpack, Hnr.
         rewrite (Hcont r2 rb2 G2 R2). reflexivity.
+Qed.
+
+Lemma chunk4_pos p ref row : (0 < g_cols p)%N -> (1 <= length (chunk4 p ref row))%nat.
+Proof.
+  intros Hc. assert (H : (1 <= length (row2d_bits p ref row))%nat).
+  { unfold row2d_bits.
+    destruct (enc2d_word p (changing p (row_px p ref)) (changing p (row_px p row)) (Z.of_N (g_cols p))
+                (S (N.to_nat (g_cols p))) (-1) (white_bit p) ltac:(lia)) as (W & Y & HW & ->).
+    rewrite app_length. assert (1 <= length W)%nat; [|lia].
+    unfold pos_words, neg_words in HW. cbn [app In] in HW.
+    repeat (destruct HW as [<-|HW]; [cbn; lia|]). contradiction. }
+  unfold chunk4, pad_to_byte. destruct (g_align p); [rewrite app_length|]; lia.
+Qed.
+
+Lemma img4_bits_rows p : (0 < g_cols p)%N -> forall rows ref, (length rows <= length (img4_bits p ref rows))%nat.
+Proof.
+  intros Hc rows ref. unfold img4_bits. rewrite app_length.
+  assert (H : (length rows <= length (rows4_bits p ref rows))%nat).
+  { revert ref. induction rows as [|row rows IH]; intros ref; [cbn; lia|]. cbn [rows4_bits length]. rewrite app_length.
+    pose proof (chunk4_pos p ref row Hc). specialize (IH row). lia. }
+  lia.
+Qed.
+
+Lemma white_row_length p : length (white_row p) = line_bytes p.
+Proof. unfold white_row. apply repeat_length. Qed.
+
+(* Group 4: every image of whole rows survives encoding and decoding *)
+Theorem g4_rt_proof p rows :
+  (0 < g_cols p)%N -> Forall (row_ok p) rows ->
+  (g_maxrows p = 0%nat \/ (length rows <= g_maxrows p)%nat) ->
+  g4_dec p (g4_enc p (concat rows)) = Ok (concat rows).
+Proof.
+  intros Hc Hok Hmax. rewrite (g4_enc_bits p rows Hc Hok). unfold g4_dec.
+  set (bits := img4_bits p (white_row p) rows). set (e := pack_bits bits).
+  set (r0 := {| r_buf := []; r_rest := e; r_err := None; r_eof := false; r_pad := 0 |}).
+  assert (G0 : good r0 []). { unfold good, r0; cbn. repeat split; auto; discriminate. }
+  assert (R0 : real r0 [] = repeat false 0 ++ bits ++ repeat false ((8 - length bits mod 8) mod 8)).
+  { unfold real, r0. cbn [r_rest app repeat]. subst e. apply pack_bits_spec. }
+  assert (He : (length bits <= 8 * length e)%nat).
+  { rewrite <- flat_bits_length. subst e. rewrite pack_bits_spec. unfold pad_to_byte. rewrite app_length. lia. }
+  pose proof (img4_bits_rows p Hc rows (white_row p)) as Hr. fold bits in Hr.
+  rewrite (g4_rows_rt p Hc rows (white_row p) 0 (S (S (8 * length e))) r0 [] 0 _ G0 R0).
+  - reflexivity.
+  - intros _. split; [lia|]. pose proof (pad_to_byte_mod bits) as H. unfold pad_to_byte in H.
+    rewrite app_length, repeat_length in H. exact H.
+  - reflexivity.
+  - apply Nat.mod_upper_bound. lia.
+  - cbn [Nat.add]. assumption.
+  - assumption.
+  - apply white_row_length.
+  - lia.
+Qed.
+
+(* ---- with the row limit of FilterCCITTFax.toParams ---- *)
+
+From GoPdf.C06 Require Import FilterParams CCITTParams.
+
+Theorem g4_encode_rt p rows e :
+  (0 < g_cols p)%N -> Forall (row_ok p) rows -> g4_encode p rows = Ok e -> g4_dec p e = Ok (concat rows).
+Proof.
+  intros Hc Hok. unfold g4_encode, rows_accepted.
+  destruct (Nat.eqb (g_maxrows p) 0 || Nat.leb (length rows) (g_maxrows p)) eqn:E; [|discriminate].
+  intros H. inversion H; subst. apply g4_rt_proof; try assumption.
+  apply orb_true_iff in E as [E|E]; [left; apply Nat.eqb_eq, E|right; apply Nat.leb_le, E].
+Qed.
+
+Theorem ccitt_filter_rt4 c rows e :
+  validate_ccitt c = true -> 0 <= c_columns c -> Forall (row_ok (g3p_of c)) rows ->
+  g4_encode (g3p_of c) rows = Ok e ->
+  g4_dec (g3p_of c) e = Ok (concat rows) /\ (length rows <= Z.to_nat (ccitt_max_rows (c_columns c) (c_rows c)))%nat.
+Proof.
+  intros Hv Hcols Hok He. split.
+  - apply (g4_encode_rt (g3p_of c) rows e); try assumption. unfold g3p_of; cbn [g_cols].
+    destruct (c_columns c =? 0) eqn:E; lia.
+  - unfold g4_encode, rows_accepted in He. cbn [g3p_of g_maxrows] in He.
+    pose proof (ccitt_max_rows_pos (c_columns c) (c_rows c)).
+    destruct (Nat.eqb (Z.to_nat (ccitt_max_rows (c_columns c) (c_rows c))) 0) eqn:E0; [apply Nat.eqb_eq in E0; lia|].
+    cbn [orb] in He. destruct (Nat.leb (length rows) (Z.to_nat (ccitt_max_rows (c_columns c) (c_rows c)))) eqn:E1; [|discriminate].
+    apply Nat.leb_le, E1.
 Qed.
